@@ -344,6 +344,9 @@ def run(c, chk):
     from . import c09 as _c09
     _c09.untitled_does_not_end_search(c, _c08.chk_proxy(chk, {'R9.9': 'R11.11'}), ex)
 
+    # ---- R11.12: a well-formed quoted qualifier always names a title (also the empty one)
+    quoted_title_accepted(c, chk, ex)
+
     # ---- R11.10: where an unquoted qualifier ends ------------------------------------------------------
     qualifier_extent(c, chk, ex, sec)
 
@@ -477,6 +480,36 @@ def step_loop(c, secf):
             cands.sort(key=lambda h: -len(loops[h]))
             return g, cands[0]
     raise report.Broken('cfg_getopt_secidx(): step loop not found')
+
+
+def quoted_title_accepted(c, chk, ex):
+    """R11.12: name='...' addresses the section with exactly that title - the empty title '' included, which has no other
+    spelling in a path.  Once the closing quote of a well-formed quoted qualifier has been seen, the title parser returns
+    a title (it fails only for want of memory)"""
+    chk.rule('R11.12', 'the title parser returns a title on every path on which it has seen the closing quote of a quoted qualifier (an empty quoted title is a title)')
+    from . import c07 as _c07
+    f = c.need('parse_title')
+    n = 0
+    bad = None
+    for p in ex.explore(f):
+        if p.end != 'ret':
+            continue
+        quotes = 0
+        for cn, t, _ in p.assume:
+            if cn[0] == 'icmp' and cn[1] in ('eq', 'ne') and ('c', 39) in (cn[2], cn[3]) and ((cn[1] == 'eq') == t):
+                quotes += 1
+        if quotes < 2:
+            continue          # opening quote only (or no quote at all)
+        n += 1
+        if p.retval == sym.C0 and not _c07.is_alloc_failure_path(p):
+            bad = bad or p
+    if bad is not None:
+        chk.fail('R11.12', 'quoted-title-refused', c.where(bad.last_ins) if bad.last_ins is not None else c.where(f),
+                 'parse_title() returns "no title" although it has seen the closing quote of a well-formed quoted qualifier (%s): a section whose title can only be written '
+                 'in quotes - the empty title - cannot be addressed by any path' % fp.cond_text(bad, 4))
+    elif n:
+        chk.ok('R11.12', 'parse_title: %d paths that reach the closing quote' % n, 'each returns the title', sample=True)
+    chk.floor('R11.12 paths that reach the closing quote', n, 1)
 
 
 def qualifier_extent(c, chk, ex, sec):
